@@ -13,7 +13,7 @@ func init() {
 	register("C10", "Decides structural necessary conditions of 'the ASN.1 fork is as strict as upstream; lax only adds acceptances': "+
 		"(R1) lax propagation — the set of parameters that receive the lax flag is exactly {checkInteger, parseInt64, parseInt32, parseBigInt, parseObjectIdentifier, parsePrintableString, parseSequenceOf}; at every call site of these the lax argument is the caller's own incoming flag (its lax parameter or params.lax), never a constant; every parseField call made by a function that has an incoming flag passes parameters whose lax field was set from it on all paths; the lax field is written only from an incoming flag or, in parseFieldParameters, as true under the tag part \"lax\"; Unmarshal is UnmarshalWithParams with the empty (strict) parameter string and the remainder is b[offset:]; "+
 		"(R2) monotonicity — lax-derived values condition branches only in checkInteger, parseObjectIdentifier, parsePrintableString; in each, for every valuation of all other branch atoms, what strict mode accepts lax mode accepts with the identical result, lax never rejects where strict accepts, and the outcomes differ only for the documented malformation (integer longer than one byte / empty OID / non-printable byte, accepted only if the bytes could be ISO 8859-1 or T.61); "+
-		"(R3) strict ≡ toolchain — with every lax operand replaced by false, each same-named function of asn1.go, common.go, marshal.go has the same multiset of rejection sites, error-propagating calls and explicit returns under the same enclosing/preceding conditions as encoding/asn1 of the toolchain that type-checks the repository, up to the frozen drift table in rules_c10.go (each entry with reason; acceptance-changing entries are marked); "+
+		"(R3) strict ≡ toolchain — with every lax operand replaced by false, each same-named function of asn1.go, common.go, marshal.go has the same multiset of rejection sites, error-propagating calls and returns under the same enclosing/preceding conditions, the same multiset of branch conditions (every if / for / range / switch clause, comparison orientation canonical) and the same multiset of assignments to named results and to variables that flow into returned values as encoding/asn1 of the toolchain that type-checks the repository, up to the frozen drift table in rules_c10.go (each entry with reason; acceptance-changing entries are marked); "+
 		"(R4) raw preservation — parseField stores RawValue.FullBytes and RawContent as bytes[initOffset:offset] (sub-slice of the input ending at the returned offset) and Bytes as its content suffix; makeField emits non-empty FullBytes verbatim, makeBody emits a leading non-empty RawContent minus its header, bytesEncoder copies verbatim. "+
 		"NOT covered: acceptance/value equality with encoding/asn1 on all inputs (only that no check, propagation or return differs structurally), code without a rejection/return site (offset arithmetic, reflect stores), marshal∘unmarshal identity, absence of panics, allocation bounds, the semantics of reflect. The R3 verdict is relative to the installed toolchain's encoding/asn1 (version recorded in the assumptions).",
 		runC10)
